@@ -1,9 +1,9 @@
-(* Obligation C20/normal_cdf_limits.  Statement as printed by Coq from Inferno.C20.DistProofs; proof by reference.
+(* Obligation C20/normal_cdf_limits.  Statement as printed by Coq from Inferno.C20.DistNormal; proof by reference.
    This file contains nothing else, so the statement cannot be weakened quietly. *)
 From Coq Require Import Reals List ZArith Bool.
 From Coquelicot Require Import Coquelicot.
 From Flocq Require Import Core.Raux.
-From Inferno Require Import Base.Num Base.NumR C20.Model C20.Spec C20.DistProofs.
+From Inferno Require Import Base.Num Base.NumR Gen.Distributions C20.Model C20.Spec C20.DistNormal.
 Import ListNotations.
 Open Scope R_scope.
 Theorem normal_cdf_limits : forall (erf : R -> R) (loc : T RN) (scale Lp Lm : R),
@@ -12,5 +12,5 @@ Theorem normal_cdf_limits : forall (erf : R -> R) (loc : T RN) (scale Lp Lm : R)
   is_lim erf m_infty Lm ->
   is_lim (fun x : R => normal_cdf RN erf x loc scale) p_infty (/ 2 * (1 + Lp)) /\
   is_lim (fun x : R => normal_cdf RN erf x loc scale) m_infty (/ 2 * (1 + Lm)).
-Proof. exact (@Inferno.C20.DistProofs.normal_cdf_limits). Qed.
+Proof. exact (@Inferno.C20.DistNormal.normal_cdf_limits). Qed.
 Print Assumptions normal_cdf_limits.
